@@ -582,6 +582,21 @@ static void run_case(const std::string& id, bool newxta, std::vector<Cmd>& cmds)
                 else if (c.arg == "errors") { dump_errs("error", doc->get_errors()); dump_errs("warning", doc->get_warnings()); }
                 else if (c.arg == "supported") { auto& s = doc->get_supported_methods(); printf("supported symbolic=%d stochastic=%d concrete=%d\n", s.symbolic, s.stochastic, s.concrete); }
                 else if (c.arg == "wdoc") dump_wdoc(*doc);
+                else if (c.arg == "instances") {
+                    // every INSTANCE symbol of the global frame in declaration order (templates and partial instantiations), then the processes
+                    frame_t g = doc->get_globals().frame;
+                    int k = 0;
+                    for (uint32_t q = 0; q < g.get_size(); ++q) {
+                        type_t ty = g[q].get_type();
+                        if (ty.is(INSTANCE) && g[q].get_data()) {
+                            instance_t* i = (instance_t*)g[q].get_data();
+                            printf("arity=%zu ", ty.size());
+                            dump_instance("instance", k++, *i);
+                        }
+                    }
+                    k = 0;
+                    for (auto& p : doc->get_processes()) dump_instance("process", k++, p);
+                }
                 else if (c.arg == "inv") { inv_fail = 0; check_inv(*doc, returned_normally && !doc->has_errors()); printf("inv fails=%d\n", inv_fail); }
                 else if (c.arg == "clear") { doc->clear_errors(); doc->clear_warnings(); }
             } else if (c.op == "EXPR" || c.op == "RT" || c.op == "LAWS" || c.op == "TEXPR") {
